@@ -341,7 +341,8 @@ FP_RANGE_H2O = "range: value outside min..max, candidate phases linearly depende
 FP_MODEL_H2O = "model: constraint violated, candidate phases linearly dependent apart from H2O (collinear columns, cl1 kode 0 / false infeasible)"
 FP_RANGE_MIX = "range: value outside min..max, two or more initial solutions (cl1 in range() returns kode 0 for a non-optimal bound)"
 FP_MINIMAL_TIGHT = "minimal: a reported model strictly contains another, solver tolerance <= 1e-12 (-tolerance 1e-12 / -multiple_precision without INVERSE_CL1MP: cl1 calls a feasible subset infeasible)"
-FP_DELTA_TINY = "delta: adjustment exceeds uncertainty in a solution with near-zero mixing fraction: fraction x excess <= solver tolerance (the solver's unknown is the product f*delta, the printed delta is (f*delta)/f)"
+FP_DELTA_TINY = "delta: adjustment exceeds uncertainty in a solution whose mixing fraction is 0 < f <= 1e-9 (printed delta = (f*delta)/f, a quotient of numbers below the solver's own thresholds)"
+FP_DELTA_PRODUCT = "delta: adjustment exceeds uncertainty in a solution with near-zero mixing fraction beyond the member threshold (|f| > 1e-9, |f| x excess <= solver tolerance: the solver's unknown is the product f*delta, the printed delta is (f*delta)/f)"
 FP_SIGN_TINY = "sign: negative mixing fraction with |f| x largest concentration of that water <= solver tolerance (cl1 returns kode 0 with x slightly below 0 for a listed water that the final water does not contain)"
 FP_RANGE = "range: value outside its reported min..max"
 FP_RANGE_INV = "range: min > max"
@@ -530,10 +531,12 @@ def judge(problem, stoich, out, selstr):
                                      "%s: solution %d %s input %r delta %s; declared uncertainty %r allows %r" % (tag, n, rname, c, td, unc_of(rname, n), b)))
             for i, exc in dex:
                 problems[i] = (problems[i][0], "%s; mixing fraction of solution %d = %r" % (problems[i][1], n, f[n]))
-                if abs(f[n]) * exc <= tol:
-                    # the library's unknowns are f and the product f*delta (accurate to the solver tolerance); it prints
-                    # (f*delta)/f for every solution with |f| > tolerance
-                    problems[i] = (FP_DELTA_TINY, "%s: |f| x excess = %.3g <= solver tolerance %g [%s]" % (problems[i][1], abs(f[n]) * exc, tol, problems[i][0]))
+                # the library's unknowns are f and the product f*delta (accurate to the solver tolerance); it prints
+                # (f*delta)/f for every solution with |f| > tolerance, while members are pruned at TOL = 1e-9
+                if 0.0 < f[n] <= TOL_MEMBER:
+                    problems[i] = (FP_DELTA_TINY, "%s (solver tolerance %g, member threshold %g) [%s]" % (problems[i][1], tol, TOL_MEMBER, problems[i][0]))
+                elif abs(f[n]) * exc <= tol:
+                    problems[i] = (FP_DELTA_PRODUCT, "%s: |f| x excess = %.3g <= solver tolerance %g [%s]" % (problems[i][1], abs(f[n]) * exc, tol, problems[i][0]))
         # ---- (ii) mole balance per element
         rownames = set()
         for n in present:
@@ -592,7 +595,7 @@ def judge(problem, stoich, out, selstr):
         # ---- attribute the failures of this model to a mechanism the library's own output identifies
         for i in range(start, len(problems)):
             fp, what = problems[i]
-            if fp in (FP_RANGE_PRUNED, FP_DELTA_TINY, FP_SIGN_TINY) or fp.startswith("report:") or fp.startswith("input:"):
+            if fp in (FP_RANGE_PRUNED, FP_DELTA_TINY, FP_DELTA_PRODUCT, FP_SIGN_TINY) or fp.startswith("report:") or fp.startswith("input:"):
                 continue
             what = "%s [%s]" % (what, fp)
             if fp.startswith("range:"):
